@@ -41,7 +41,7 @@ C={
         "Every failing string up to the bound over an alphabet with newline, 2/4-byte characters: Parse class, expression text, offset on a boundary, line/column recomputed, Display re-rendered; every failing signature-table cell in 13 contexts: runtime class and offset at the failing call's '('.",
         "R-eval tracks the failing call; non-finite results are a known finding"),
  "C13":("explicit-state BFS (stateright) over operation histories; state = history; invariant replays on fresh real objects (differential vs empty history)","5 C13",
-        "All histories of compile/clone/search/drop over 15 expressions x 4 shared documents up to the depth bound: last observation equals the fresh-history observation, shared inputs unchanged; each operation also as first operation of a fresh process.",
+        "All histories of compile/clone/search/drop over 16 expressions x 5 shared documents up to the depth bound: last observation equals the fresh-history observation, shared inputs unchanged; each operation also as first operation of a fresh process.",
         "observations are full Debug renderings"),
  "C15":("explicit-state BFS (stateright) over registry histories against a reference map; exhaustive call-protocol enumeration with recording functions","5 C15",
         "All register/deregister/register_builtins histories over 3 names up to the depth bound answer get_function and 8 probe calls like the reference map; recording custom functions see evaluated arguments in source order; CustomFunction closures (16 parameter types x fixed / variadic / string+variadic shapes x argument vectors up to length 3-4) run iff the signature is satisfied.",
